@@ -1423,7 +1423,14 @@ func (e *Engine) checkReplacementKeeps(tx *Tx, rep *Report) {
 		return
 	}
 	bad := func(f string) {
-		e.viol([]string{"C09", "C06"}, "replacement-keeps", "C09:replacement-changed:"+f,
+		props := []string{"C09", "C06"}
+		if f == "nonce" {
+			props = append(props, "C07") // a replacement drew a fresh nonce
+			if deposit {
+				props = append(props, "C05") // ... and announced the same burn a second time under it
+			}
+		}
+		e.viol(props, "replacement-keeps", "C09:replacement-changed:"+f,
 			fmt.Sprintf("the replacement differs from the original in %s: original %x, replacement %x", f, orig, rep.Sent[0]), e.caseOf(tx, ""))
 	}
 	e.Rc.Cov.Assert("C09.replacement-keeps")
